@@ -489,9 +489,11 @@ func (r *PropResult) Report() int {
 		samples = append(samples, "no obligations")
 	}
 	cov := map[string]any{
-		"obligations":            nOb,
+		"obligations":            nOb - nKnown,
 		"discharged":             nDis,
+		"obligations_generated":  nOb,
 		"known_findings":         nKnown,
+		"explanation":            "obligations counts the proof obligations this claim rests on; obligations that are refuted on the current tree and recorded in KNOWN_FINDINGS.jsonl (known_findings) are generated and re-posed on every run but are not part of the proved set: the property is NOT proved for the clause they belong to",
 		"violations":             nViol,
 		"covers_checked":         nCover,
 		"covers_vacuous":         nVac,
@@ -505,7 +507,7 @@ func (r *PropResult) Report() int {
 		"abstracted":             ab,
 		"samples":                samples,
 		"load_s":                 r.LoadS,
-		"evaluations":            nOb,
+		"evaluations":            nOb - nKnown,
 		"distinct_nontrivial":    nDis,
 		"rule":                   "one SMT query per proof obligation generated from the SSA of /repo's working tree; distinct = distinct obligation names discharged (unsat)",
 		"generation_errors":      r.GenErrors,
